@@ -164,4 +164,13 @@ TEXTS = {
                     "round-off (conditioning-scaled where a system is solved). Counter-example search with shrinking."),
         level_note=("Trusted: nothing beyond the plain path of each pair (itself tied to independent oracles by C01, C03, C06), the harness's tolerance model and rapidcheck. "
                     "n<=40 data (500 for migrate, 90 for ball search).")),
+    "C14": dict(
+        engine="rapidcheck",
+        technique="property-based statistical testing (rapidcheck-generated simulator/model/seed cases): ensemble moments over 1000-4000 realisations against the model with sampling-error-calibrated thresholds (6 sigma + stated discretisation allowance); moment / KS / support tests of the random generators",
+        design_ref="DESIGN.md §5 C14",
+        level_text=("Statistical exploration: few but expensive cases (quick ~30 ensembles + 400 law/Cholesky cases; thorough ~430 ensembles + 7000): each ensemble's mean, "
+                    "variance and (cross-)covariances at probe nodes/pairs are compared with the model within 6 Monte-Carlo standard errors plus a stated allowance. "
+                    "Detects gross law errors (factors, axes, sills, signs), not subtle distributional defects."),
+        level_note=("Trusted: the Gaussian fourth-moment formula for sigma_MC, boost::math CDFs, rapidcheck; thresholds derived (not tuned) and validated over seeds on "
+                    "the unchanged tree. Runs are deterministic functions of VERIF_SEED.")),
 }
